@@ -202,24 +202,19 @@ pub fn start_tracker(sw: u8, wm: u8) -> Tracker {
 }
 
 pub fn start_tracker_cleaning(sw: u8, wm: u8, cleaning: Value) -> Tracker {
-    let cfg = json!({"socket_workers": sw, "swarm_workers": wm, "network": {"address": "127.0.0.1:PORT"}, "protocol": {"max_offers": 2}, "cleaning": cleaning});
-    let mut child = TrackerChild::spawn("ws", cfg, &[("AQV_PORT_PER_WORKER", "1".into())]);
-    let t0 = Instant::now();
-    'outer: loop {
+    // ready = every socket worker answers a request (a worker listens before it has joined its channel meshes). On a heavily
+    // loaded machine a worker was seen never to get that far (asleep with 0.06 s of CPU while its siblings served): such a
+    // tracker is started afresh once; the observation is recorded in DESIGN.md, it is not something a replay can show.
+    for attempt in 0..2 {
+        let cfg = json!({"socket_workers": sw, "swarm_workers": wm, "network": {"address": "127.0.0.1:PORT"}, "protocol": {"max_offers": 2}, "cleaning": cleaning.clone()});
+        let mut child = TrackerChild::spawn("ws", cfg, &[("AQV_PORT_PER_WORKER", "1".into())]);
+        if all_workers_serving("ws", child.port, sw, 90) && child.exited().is_none() {
+            return Tracker { child, socket_workers: sw, swarm_workers: wm, label: format!("socket_workers={} swarm_workers={}", sw, wm) };
+        }
         let ex = child.exited();
-        if ex.is_some() || t0.elapsed() > Duration::from_secs(90) {
-            machinery_failure(&format!("ws tracker did not start (exit code {:?} after {:.1} s; printed {:?})", ex, t0.elapsed().as_secs_f64(), child.stdout_lines.lock().unwrap()));
-        }
-        for w in 0..sw {
-            if std::net::TcpStream::connect_timeout(&SocketAddr::new(IpAddr::V4(Ipv4Addr::LOCALHOST), child.port + w as u16), Duration::from_millis(200)).is_err() {
-                std::thread::sleep(Duration::from_millis(30));
-                continue 'outer;
-            }
-        }
-        break;
+        eprintln!("[C17] tracker socket_workers={} swarm_workers={} not serving after 90 s (attempt {}, exit code {:?}); threads: {:?}", sw, wm, attempt, ex, proc_thread_states(child.child.id()));
     }
-    std::thread::sleep(Duration::from_millis(150));
-    Tracker { child, socket_workers: sw, swarm_workers: wm, label: format!("socket_workers={} swarm_workers={}", sw, wm) }
+    machinery_failure("ws tracker did not start serving (two attempts, 90 s each)");
 }
 
 fn hash_for(ns: u64, t: u8, pl: &Placement, wm: u8) -> [u8; 20] {
@@ -760,8 +755,8 @@ pub fn burst(trk: &Tracker, ns: u64, n: usize, sender_worker: u8, receiver_worke
     let pl = Placement { conn_worker: vec![sender_worker, receiver_worker, 0], torrent_worker: vec![0, 1] };
     let addr = |w: u8| SocketAddr::new(IpAddr::V4(Ipv4Addr::LOCALHOST), trk.child.port + (w % trk.socket_workers) as u16);
     let h = id20(&hash_for(ns, 0, &pl, trk.swarm_workers));
-    let mut a = WsConn::connect(addr(receiver_worker)).unwrap_or_else(|| machinery_failure(&format!("burst: connect (n = {}) to {:?}/{:?} of {}; tracker printed {:?}", n, addr(sender_worker), addr(receiver_worker), trk.label, trk.child.stdout_lines.lock().unwrap())));
-    let mut b = WsConn::connect(addr(sender_worker)).unwrap_or_else(|| machinery_failure(&format!("burst: connect (n = {}) to {:?}/{:?} of {}; tracker printed {:?}", n, addr(sender_worker), addr(receiver_worker), trk.label, trk.child.stdout_lines.lock().unwrap())));
+    let mut a = WsConn::connect_patiently(addr(receiver_worker)).unwrap_or_else(|| machinery_failure(&format!("burst: connect (n = {}) to {:?}/{:?} of {}; tracker printed {:?}", n, addr(sender_worker), addr(receiver_worker), trk.label, trk.child.stdout_lines.lock().unwrap())));
+    let mut b = WsConn::connect_patiently(addr(sender_worker)).unwrap_or_else(|| machinery_failure(&format!("burst: connect (n = {}) to {:?}/{:?} of {}; tracker printed {:?}", n, addr(sender_worker), addr(receiver_worker), trk.label, trk.child.stdout_lines.lock().unwrap())));
     // receiver joins the torrent
     a.send_text(json!({"action": "announce", "info_hash": h, "peer_id": id20(&pid_bytes(ns, 1)), "numwant": 0, "left": 1, "event": "started"}).to_string());
     let _ = a.recv_text(3000);
